@@ -294,6 +294,11 @@ func writeGroupIni(cmd *Command, group *Group, namespace string, writer io.Write
 			} else {
 				v, _ := convertToString(val, option.tag)
 
+				// Quoting is decided by the kind of the value pointed to
+				for tp := val.Type(); kind == reflect.Ptr; kind = tp.Kind() {
+					tp = tp.Elem()
+				}
+
 				writeOption(writer, oname, kind, "", v, commentOption, option.iniQuote)
 			}
 		}
